@@ -102,3 +102,24 @@ Fixpoint names_nodup (l : list string) : bool :=
 Theorem columns_are_documented :
   columns_translation_ok && forallb (fun d => existsb (col_eqb d) stat_columns) documented_columns && names_nodup (map fst stat_columns) = true.
 Proof. vm_compute. reflexivity. Qed.
+
+(* ------------------------------------------------------------------------------------------------------------------
+   which population a record describes follows from the ORDER of the phases of run_iteration, read from src/solver.cpp on
+   this run (Iteration_gen.v; the equality with the documented order is Properties_C08.phase_order_is_documented) *)
+From SC Require Import Population IterationDefs Iteration_gen Iteration IterationProofs.
+
+(* one iteration records, newest first: the statistics (every 50th iteration) for the cells alive after the divisions and
+   before the removals; one time step; the mesh files (not on a temporary step) for the cells alive before the divisions *)
+Theorem what_one_iteration_records : forall (inp : inputs) (s : istate),
+  i_log (run_iteration documented_order inp s) =
+    ((if Nat.eqb (Nat.modulo (i_iter s) 50) 0 then [EStats (i_iter s) (ids (mid_pop inp s))] else []) ++
+     [EStep (i_iter s); EUse PIntegrate (i_iter s) (p_cells (mid_pop inp s)); EUse PPolarize (i_iter s) (p_cells (mid_pop inp s));
+      EUse PContact (i_iter s) (p_cells (mid_pop inp s))] ++
+     (if negb (in_tmp inp) then [ESave (i_iter s) (ids (i_pop s))] else []) ++ i_log s)%list.
+Proof. exact iteration_log. Qed.
+Print Assumptions what_one_iteration_records.
+
+Theorem one_time_step_per_iteration : forall (inp : inputs) (s : istate),
+  i_iter (run_iteration documented_order inp s) = S (i_iter s) /\ i_steps (run_iteration documented_order inp s) = S (i_steps s).
+Proof. exact iteration_counters. Qed.
+Print Assumptions one_time_step_per_iteration.
